@@ -68,6 +68,31 @@ Theorem C12_lifecycle : forall c outs ops, reliable outs = true ->
 Proof. exact lifecycle_thm. Qed.
 Print Assumptions C12_lifecycle.
 
+(* the same for ANY sink (errors, short writes, failing Sync) and both code versions: the lifecycle does
+   not depend on what the sink answers *)
+Theorem C12_lifecycle_any_sink : forall fx c outs ops,
+  loop (fst (run_gen fx (init c outs) ops)) = is_running (spec_phase ops).
+Proof. exact lifecycle_any_thm. Qed.
+Print Assumptions C12_lifecycle_any_sink.
+
+(* once ANY Stop has returned -- first or repeated, before or after the first Write, whatever the
+   sink answered -- no flush goroutine is left; a loop ended by a Stop never comes back *)
+Theorem C12_stop_ends_loop : forall fx c outs ops ops2,
+  loop (fst (run_gen fx (init c outs) (ops ++ [Stop]))) = false /\
+  (loop (fst (run_gen fx (init c outs) ops)) = true ->
+   loop (fst (run_gen fx (init c outs) (ops ++ Stop :: ops2))) = false).
+Proof. exact stop_ends_loop_thm. Qed.
+Print Assumptions C12_stop_ends_loop.
+
+(* Stops on a syncer that has not been written to change nothing at all: they do not use up the one
+   effective Stop -- the first Write afterwards starts the loop and the next Stop ends it *)
+Theorem C12_early_stop_noop : forall fx c outs n bs ops,
+  fst (run_gen fx (init c outs) (repeat Stop n)) = init c outs /\
+  loop (fst (run_gen fx (init c outs) (repeat Stop n ++ [Write bs]))) = true /\
+  loop (fst (run_gen fx (init c outs) (repeat Stop n ++ Write bs :: ops ++ [Stop]))) = false.
+Proof. exact early_stop_noop_thm. Qed.
+Print Assumptions C12_early_stop_noop.
+
 (* Stop may be repeated: from any state at all, with any sink, a Stop that follows a Stop changes
    neither the buffer nor the flags, writes nothing to the sink (at most it syncs it) *)
 Theorem C12_stop_idempotent : forall fx s,
@@ -142,6 +167,18 @@ Theorem C12_oracle_sound : forall c ops tr alive, strong_ok c ops tr alive = tru
 Proof. exact oracle_sound. Qed.
 Print Assumptions C12_oracle_sound.
 
+(* whatever the lifecycle oracle accepts (any sink) -- per-operation goroutine liveness, tick results and
+   the final tick as recorded from the real implementation -- is the documented lifecycle: the flush
+   goroutine is present exactly from the first Write to the first Stop after it, in particular it is
+   gone after every Stop; a tick is served exactly while it runs and reaches the sink at no other time *)
+Theorem C12_life_oracle_sound : forall ops tr live alive, life_ok ops tr live alive = true ->
+  live = map is_running (phases Fresh ops) /\ alive = is_running (spec_phase ops) /\
+  (forall n, nth_error ops n = Some Stop -> nth_error live n = Some false) /\
+  (forall n d es, nth_error ops n = Some Tick -> nth_error tr n = Some (RT d, es) ->
+     d = is_running (spec_phase (firstn n ops)) /\ (d = false -> es = [])).
+Proof. exact life_oracle_sound. Qed.
+Print Assumptions C12_life_oracle_sound.
+
 (* whatever trace the weak oracle (unreliable sinks, raw bufio) accepts has stream integrity *)
 Theorem C12_weak_oracle_sound : forall ops tr p, wrun p ops tr = true ->
   exists p', p ++ consumed ops tr = concat (received (all_evs tr)) ++ p'.
@@ -173,6 +210,12 @@ Example C12_example_orig :
   snd (run (init 4 []) [Write [x61; x62]; Stop; Write [x63; x64]; Stop]) =
     [(RW 2 0, []); (RStop 0, [EW [x61; x62] 2; ES]); (RW 2 0, [EW [x63; x64] 2]); (RStop 0, [ES])].
 Proof. exact stop_flushes_orig_witness. Qed.
+(* Stop before the first Write, use, Stop again: loop absent, running, gone; also over a sink whose every call fails *)
+Example C12_example_early_stop :
+  lives (init 4 []) [Stop; Write [x61; x62]; Tick; Stop; Tick; Stop] = [false; true; true; false; false; false] /\
+  lives (init 4 [{| o_short := Some 0; o_err := true |}; {| o_short := None; o_err := true |}])
+        [Stop; Write [x61; x62]; Tick; Stop; Tick; Stop] = [false; true; true; false; false; false].
+Proof. split; vm_compute; reflexivity. Qed.
 (* a sticky error: the flush fails once, every later Write fails, nothing more reaches the sink *)
 Example C12_example_sticky :
   snd (run (init 4 [{| o_short := Some 1; o_err := true |}]) [Write [x61; x62; x63]; Write [x64; x65]; Write [x66]; Sync]) =
